@@ -7,6 +7,7 @@ actions: ["emit", src, val_json, [[id, has_ref]...]]   source.emit(x, metadata=.
          ["ackfail"]        fail the oldest outstanding sink future
          ["task", k]        complete the k-th outstanding map_async task (0 = oldest)
          ["adv", ticks]     advance virtual time
+         ["detach"] / ["attach"]   source.disconnect(node) / source.connect(node) (no emit in between; oracle only)
 Observation per action: {"now": ticks, "deliv": [[tick, val, [[id,ref]..]]...], "done": [emit ids], "failed": [emit ids],
                          "counts": [...], "fired": [...]}
 """
@@ -62,19 +63,29 @@ class Run:
         sp = self.case["node"]
         k = sp["k"]
         sec = lambda t: t / TICKS_PER_S
-        nsrc = 2 if k == "zip" else (3 if k == "zip3" else 1)
+
+        def ival(t):
+            # the interval as a number of seconds, as a duration string ("187500us") or as a COMPOUND duration string
+            # ("125ms 62500us"): all three name the same interval
+            us = 1000000 // TICKS_PER_S
+            if sp.get("ispec") == "str":
+                return "%dus" % (t * us)
+            if sp.get("ispec") == "compound" and t >= 2:
+                return "%gms %dus" % ((t - 1) * us / 1000.0, us)
+            return sec(t)
+        nsrc = 2 if k in ("zip", "zip_latest") else (3 if k == "zip3" else 1)
         self.sources = [Stream(asynchronous=True) for _ in range(nsrc)]
         s = self.sources[0]
         if k == "buffer":
             n = s.buffer(sp["n"])
         elif k == "delay":
-            n = s.delay(sec(sp["interval"]))
+            n = s.delay(ival(sp["interval"]))
         elif k == "rate_limit":
-            n = s.rate_limit(sec(sp["interval"]))
+            n = s.rate_limit(ival(sp["interval"]))
         elif k == "timed_window":
-            n = s.timed_window(sec(sp["interval"]))
+            n = s.timed_window(ival(sp["interval"]))
         elif k == "timed_window_unique":
-            n = s.timed_window_unique(sec(sp["interval"]), key=failing(keyfn(sp["key"]), sp.get("userfail")), keep=sp["keep"])
+            n = s.timed_window_unique(ival(sp["interval"]), key=failing(keyfn(sp["key"]), sp.get("userfail")), keep=sp["keep"])
         elif k == "partition":
             kw = {}
             if sp.get("key") is not None:
@@ -110,6 +121,8 @@ class Run:
             n = s.map(lambda x: x)
         elif k == "flatten":
             n = s.flatten()
+        elif k == "zip_latest":
+            n = self.sources[0].zip_latest(self.sources[1])      # lossless input: source 0
         else:
             raise KeyError(k)
         self.node = n
@@ -408,6 +421,17 @@ class Run:
             self.loop.settle()
         elif kind == "adv":
             self.loop.advance(act[1] / TICKS_PER_S)
+        elif kind in ("detach", "attach"):
+            # the node's feed is taken away (source.disconnect(node)) and later given back (source.connect(node)) while
+            # the node may be holding elements / have a consumer busy: what it received before must still come out
+            def go():
+                attached = any(d is self.node for d in list(self.sources[0].downstreams))
+                if kind == "detach" and attached:
+                    self.sources[0].disconnect(self.node)
+                elif kind == "attach" and not attached:
+                    self.sources[0].connect(self.node)
+            self.loop.call_soon(go)
+            self.loop.settle()
         else:
             raise KeyError(kind)
 
